@@ -30,7 +30,7 @@ def plan(tier, seed):
                 'floor': {'compiled_from_file': 1, 'distinct_nontrivial': 4000, 'to_python_checked': 5000, 'twin_unifications': 25000,
                           'negative_twins': 5000, 'interning_checked': 8000, 'cross_engine_unifications': 5000,
                           'quoted_atoms': 8000, 'non_ascii_atoms': 3000, 'atoms_with_quote_or_newline': 2000}}
-    return {'n': 200000, 'deadline': 540,
+    return {'n': 520000, 'deadline': 540,
             'floor': {'compiled_from_file': 1, 'distinct_nontrivial': 80000, 'to_python_checked': 100000, 'twin_unifications': 500000,
                       'negative_twins': 100000, 'interning_checked': 150000, 'cross_engine_unifications': 100000,
                       'quoted_atoms': 150000, 'non_ascii_atoms': 60000, 'atoms_with_quote_or_newline': 40000}}
